@@ -71,6 +71,7 @@ class Exec:
         self.returns = []       # (pc, value)
         self.return_calls = []  # per return path: callee names called on the way
         self.return_callargs = []  # per return path: (callee, argument keys, result key)
+        self.return_envs = []      # per return path: the final environment (field stores by place text)
         self.env0 = {}
         for (p, ty), a in zip(fn.params, args):
             self.env0[p] = a
@@ -390,6 +391,7 @@ class Exec:
                 self.returns.append((list(pc), env.get("_0", ("opq", "unit"))))
                 self.return_calls.append(env.get("#calls", ()))
                 self.return_callargs.append(env.get("#callargs", ()))
+                self.return_envs.append(env)
                 return
             if st in ("unreachable", "resume") or st.startswith("resume"):
                 return
